@@ -10,8 +10,10 @@ P("C43",
              "unexported non-skipped field, no omitempty on a slice/map, no two fields sharing a JSON name after embedded "
              "promotion, no ,string option, only the hand-modelled custom marshalers) and EVERY well-formed value, "
              "decode(encode v) = Some v (via Lib/JsonProofs.lossless_sound, induction over types and values, no size bound). "
-             "c43_rejects_hidden(+_nested,_in_slice): a struct with state only in unexported fields is rejected at the top, as "
-             "a field and as a slice element; c43_rejects_disallowed_kind, c43_spec_rejects_nested_struct. The unrestricted "
+             "c43_rejects_contains_hidden / c43_rejects_hidden_state: a struct whose state is invisible to the encoder (only unexported "
+             "fields, or exported ones tagged json:\"-\", or embedded structs without exported fields) is rejected wherever it "
+             "occurs in the checkpointed part — top, field, slice/array/map element, behind pointer-receiver JSON methods "
+             "(c43_rejects_hidden(+_nested,_in_slice) are the all-unexported special cases); c43_rejects_disallowed_kind, c43_spec_rejects_nested_struct. The unrestricted "
              "statement is FALSE of the code: c43_mixed_fields_refuted, c43_duplicate_name_refuted, c43_omitempty_refuted give "
              "accepted-yet-lossy witnesses (recorded known findings F-C43-1..3; the generator always includes them). "
              "c43_model_agreement_implies_property links check_case to holds_on on plain types.",
